@@ -231,6 +231,58 @@ def c_diff(ctx, case):
                 break
 
 
+@check("C10.again")
+def c_again(ctx, case):
+    """Higher derivatives the way programs take them: ONE DifferentiationMapper applied to its
+    own earlier output (which contains the very wrapper objects it built), and to the input once
+    more.  Each result is the derivative of the expression it was GIVEN -- judged by dual numbers
+    on a separately built copy of that expression, at exact points."""
+    e, wname, seed = case
+    rng = ctx.sub_rng("pts", seed)
+    wv = p.Variable(wname)
+    dm = DifferentiationMapper(wv)
+    given = e
+    for order in (1, 2, 3, 1):
+        if order == 1:
+            given = e
+        copy_ = G.deep_rebuild(given)
+        try:
+            out = dm(given)
+        except RecursionError:
+            raise
+        except Exception as ex:  # noqa: BLE001
+            ctx.fail("C10.again", case, f"again:raised:{type(ex).__name__}",
+                     f"derivative number {order} with one DifferentiationMapper({wname}) of {copy_} "
+                     f"raised {type(ex).__name__}: {ex}")
+            return
+        if normal.count_ops(out) > 4000:
+            return
+        for pt in points(rng, 3, True):
+            try:
+                ref = D.lift(refsem.ev(copy_, dual_env(pt, wv)))
+            except (ZeroDivisionError, ValueError, OverflowError, TypeError):
+                ctx.count("point_undefined")
+                continue
+            got = refsem.outcome(lambda: refsem.ev(out, dict(pt)))
+            if got[0] != "v":
+                ctx.count("derivative_undefined_at_point")
+                continue
+            ctx.case(None)
+            ctx.count("repeated_derivative_values")
+            if isinstance(got[1], (float, complex)) or isinstance(ref.d, (float, complex)):
+                a, b = complex(got[1]), complex(ref.d)
+                ok = abs(a - b) <= 1e-7 * (1 + abs(b))
+            else:
+                ok = got[1] == ref.d
+            if not ok:
+                ctx.fail("C10.again", case, f"again:value:order{order}",
+                         f"one DifferentiationMapper({wname}), call number {order} of the history "
+                         f"(its own previous output as input): d/d{wname} of {copy_} = {out}; at {pt} "
+                         f"that is {got[1]!r}, the dual-number derivative of the input is {ref.d!r}")
+                return
+        given = out
+
+
 @check("C10.refusal")
 def c_refusal(ctx, case):
     """Non-smooth functions are refused unless allowed -- through every entry point (the
@@ -509,6 +561,23 @@ def workload(ctx):
             ctx.run("C10.diff", (e, "none", True, rng.randrange(10**9)))
             e = p.Sum(tuple(p.Product((i + 1, p.Power(X, i % 5))) for i in range(w)))
             ctx.run("C10.diff", (e, "none", True, rng.randrange(10**9)))
+        # one mapper fed its own output (second and third derivatives), wrappers inside
+        t_ = p.CommonSubexpression(p.Sum((p.Power(X, 3), p.Product((Y, X)))), "t")
+        u_ = p.CommonSubexpression(p.Product((X, X, Y)))
+        directed = [p.Sum((p.Product((t_, Y)), p.Power(t_, 2), X)), p.Product((t_, u_)), p.Quotient(t_, p.Sum((u_, 40))),
+                    p.CommonSubexpression(p.Product((t_, t_)), "tt"), p.Power(p.Sum((t_, 1)), 3),
+                    p.Sum((p.Power(X, 4), p.Product((3, X, Y)))), p.Product((u_, u_, X))]
+        for i, e in enumerate(directed):
+            for wn in ("x", "y"):
+                if ctx.mine("again"):
+                    ctx.case(("again", i, wn), True, n=0)
+                    ctx.run("C10.again", (e, wn, i))
+        for i in range(ctx.per_shard(ctx.pick(150, 3000))):
+            r2 = ctx.sub_rng("again", i)
+            from collections import Counter as _C
+            e = gen(r2, r2.randint(1, 3), True, _C())
+            if isinstance(e, p.Expression):
+                ctx.run("C10.again", (e, r2.choice(["x", "y"]), i))
         # kinds of numbers as coefficients, exponents and addends of every rule
         import numpy as np
         coeffs = [np.int8(50), np.int8(-100), np.int16(300), np.int32(1_500_000_000), np.int32(46341),
@@ -581,6 +650,7 @@ def workload(ctx):
             if k.endswith("map_math_functions_by_name"):
                 ctx.count("handler:map_math_functions_by_name", v)
     ctx.floor("wide_nodes", 50)
+    ctx.floor("repeated_derivative_values", 400)
     ctx.floor("kind_derivative_values", 500)
     ctx.floor("stream:rows", 300)
     ctx.floor("stream:compared_exactly", 500)
